@@ -271,6 +271,7 @@ var minFcusize = [...]uint32{
 	4,  /* Tstat fid[4] */
 	4,  /* Rstat stat[n] */
 	8,  /* Twstat fid[4] stat[n] */
+	0,  /* Rwstat */
 	20, /* Tbread fileid[8] offset[8] count[4] */
 	4,  /* Rbread count[4] */
 	20, /* Tbwrite fileid[8] offset[8] count[4] */
@@ -326,6 +327,12 @@ func gqid(buf []byte, qid *Qid) []byte {
 
 func gstat(buf []byte, d *Dir, dotu bool) ([]byte, error) {
 	sz := len(buf)
+	if sz < 2+2+4+13+4+4+4+8 {
+		s := fmt.Sprintf("Buffer too short for basic 9p: need %d, have %d",
+			49, sz)
+		return nil, &Error{s, EINVAL}
+	}
+
 	d.Size, buf = gint16(buf)
 	d.Type, buf = gint16(buf)
 	d.Dev, buf = gint32(buf)
@@ -359,6 +366,10 @@ func gstat(buf []byte, d *Dir, dotu bool) ([]byte, error) {
 		d.Ext, buf = gstr(buf)
 		if buf == nil {
 			return nil, &Error{"d.Ext failed", EINVAL}
+		}
+
+		if len(buf) < 4+4+4 {
+			return nil, &Error{"d.Uidnum failed", EINVAL}
 		}
 
 		d.Uidnum, buf = gint32(buf)
